@@ -783,6 +783,7 @@ pub fn run(args: &[String]) -> i32 {
                 "available_parallelism_error_runs": avail_err_runs,
                 "timer_fires_in_recv_timeout": probes.timer_fires,
                 "timer_polls": probes.timer_polls,
+                "step_limit_hits_resolved_by_fair_continuation": probes.step_limits_resolved_by_fair_continuation,
                 "thread_creations_refused_in_spawn_leg": spawn.get("faults_fired").cloned().unwrap_or(json!(0)),
                 "not_injected_under_shuttle": ["Scope::spawn failure / worker panic: shuttle cannot model recoverable panics (DESIGN.md §2.4); covered on real threads by the spawn-failure leg (EAGAIN from pthread_create) and by the Miri panic-propagation configuration"]
             },
